@@ -96,4 +96,51 @@ def shapeStep (O : Ops α) (vals : Nat → α) (cases : List CaseShape) (s : Lis
     | some c => c.apply O s
     | none => none
 
+
+/-! ### the operator overloads of `ExpressionBase` (expr.py) as data -/
+
+/-- what an overload returns in one branch -/
+inductive ORes where
+  | self | negSelf | raise
+  | num (q : Rat)
+  | helper (op : String)      -- `self._binary_operation_helper(other, <Op>Operator)` / `_unary_operation_helper`
+  | reflect (op : String)     -- `Float(other) <op> self`
+  deriving Repr, DecidableEq
+
+/-- one overload: the `if other == k: return …` shortcuts in source order, then the final `return` -/
+structure OverloadShape where
+  name : String
+  shortcuts : List (Rat × ORes)
+  final : ORes
+  deriving Repr, DecidableEq
+
+def binOfName (s : String) : Option Bin :=
+  if s = "add" then some .add else if s = "sub" then some .sub else if s = "mul" then some .mul
+  else if s = "div" then some .div else if s = "pow" then some .pow else none
+
+def OverloadShape.pick (sh : OverloadShape) (k : Rat) : ORes :=
+  match sh.shortcuts.find? (fun p => p.1 == k) with
+  | some p => p.2
+  | none => sh.final
+
+/-- `obj <op> y` with a native number `y` (outer `none`: the shape is not one this interpreter knows; inner `none`: raises) -/
+def OverloadShape.applyFwd (sh : OverloadShape) (a : Expr) (y : Rat) : Option (Option SVal) :=
+  match sh.pick y with
+  | .self => some (some (.ex a))
+  | .negSelf => some (some (sNeg (.ex a)))
+  | .raise => some none
+  | .num q => some (some (.num q))
+  | .helper op => (binOfName op).map fun b => some (sBinObjNum b a y)
+  | .reflect _ => none
+
+/-- `x <op> obj` with a native number `x`: the reflected overload; `Float(x) <op> self` is the object-object overload -/
+def OverloadShape.applyRefl (sh : OverloadShape) (x : Rat) (b : Expr) : Option (Option SVal) :=
+  match sh.pick x with
+  | .self => some (some (.ex b))
+  | .negSelf => some (some (sNeg (.ex b)))
+  | .raise => some none
+  | .num q => some (some (.num q))
+  | .reflect op => (binOfName op).map fun o => sBin o (.ex (.const x)) (.ex b)
+  | .helper _ => none
+
 end Wntr.Aml
